@@ -12,7 +12,7 @@ for p in mutants/*.patch seeded/*/patch.diff; do
   if [[ "$p" == mutants/* ]]; then prop=$(basename "$p" | cut -d- -f1); else prop=$(jq -r .property "$(dirname "$p")/meta.json"); fi
   if ! git -C /repo apply "$PWD/$p" 2>/tmp/selftest.err; then echo "SKIP $p (does not apply: $(head -1 /tmp/selftest.err))"; continue; fi
   if ! (cd /repo && go build ./... 2>/tmp/selftest.err); then echo "SKIP $p (does not compile)"; git -C /repo checkout -- .; continue; fi
-  out=$(bin/lvc check -p "$prop" -t ${T:-15} 2>&1); rc=$?
+  out=$(bin/lvc check -p "$prop" -noevidence -t ${T:-15} 2>&1); rc=$?
   git -C /repo checkout -- .
   if [ $rc -eq 1 ]; then
     pass=$((pass+1)); echo "KILLED $p  [$(echo "$out" | grep -c '^VIOLATION') violation line(s): $(echo "$out" | grep '^VIOLATION' | head -1 | sed 's/.*replay\///' | cut -c1-110)]"
